@@ -18,7 +18,7 @@ def _worker(mod_name, fn_name, seed, idx, extra):
         import traceback
         tb = traceback.extract_tb(e.__traceback__)
         inner = tb[-1].filename if tb else ""
-        if any(f.filename.startswith(lib.REPO + "/amaranth_soc") for f in tb) and not inner.startswith(lib.VERIF):
+        if lib.from_code_under_test(e):
             return {"skip": True, "code_exception": f"{type(e).__name__}: {str(e)[:160]} at {os.path.basename(inner)}:{tb[-1].lineno}",
                     "idx": idx, "case": case}
         raise
